@@ -172,7 +172,9 @@ def run_task(task):
                 if len(mine) != 1:
                     ctx.fail('oracle', why='no unique chunk for index %r' % iv)
                 lo, hi = mine[0]['first'], mine[0]['first'] + mine[0]['count'] - 1
-                j = ctx.int('j', lo, hi)
+                # the second index addresses the same chunk, written as a non-negative or as a negative index
+                j = ctx.int('j', lo - n, hi)
+                ctx.add(z3.Or(j.e >= lo, j.e <= hi - n))
                 del f.log[:]
                 ch[j]
                 again = [(p, k) for (p, k) in f.log if k]
